@@ -84,6 +84,10 @@ class Fn:
         return self._cfg
 
 
+# with the `std` feature the crate is not no_std and `panic!("literal")` (2018 edition) expands to std's entry point
+ALIASES = {"std::panicking::begin_panic": "core::panicking::panic"}
+
+
 def callee_path(t, resolved=True):
     """Path of the function a call terminator invokes (resolved impl if known)."""
     c = t.get("callee")
@@ -92,7 +96,7 @@ def callee_path(t, resolved=True):
     r = c.get("resolved")
     if resolved and r and r.get("local"):
         return r["path"]
-    return c["path"]
+    return ALIASES.get(c["path"], c["path"])
 
 
 def callee_full(t, resolved=True):
